@@ -397,8 +397,14 @@ def run_property(prop, tier="quick", seed=0, jobs=None, rebaseline=False, only=N
             cov["exhaustive_bounded_domain"] = bool(bounded.get("exhaustive"))
     ev = {"property_id": prop, "tier": tier, "seed": int(seed), "level": level_now, "coverage": cov,
           "assumptions": assumptions, "wall_s": round(time.time() - t_start, 2), "violations": len(violations)}
-    os.makedirs(os.path.join(VERIF, "evidence"), exist_ok=True)
-    with open(os.path.join(VERIF, "evidence", f"{prop}.json"), "w") as f:
+    # runs against a scratch copy (VERIF_REPO set to something else than /repo: seeded-change tooling) must not
+    # overwrite the evidence of the registered tree
+    from pyvc.runtime import repo_src
+    ev["repo"] = os.path.dirname(repo_src().rstrip("/"))
+    evdir = os.environ.get("VERIF_EVIDENCE_DIR") or (
+        os.path.join(VERIF, "evidence") if os.path.realpath(ev["repo"]) == "/repo" else os.path.join(ev["repo"], ".verif-evidence"))
+    os.makedirs(evdir, exist_ok=True)
+    with open(os.path.join(evdir, f"{prop}.json"), "w") as f:
         json.dump(ev, f, indent=1, default=str)
 
     # ---- report
